@@ -649,6 +649,8 @@ fn credential_alphabet(ctx: &WorkerCtx, rep: &mut WorkerReport, btc: &str) {
         ("indexer".into(), "~tilde~~".into()),
         ("ab".into(), ">>>>>>>>".into()),
         ("пользователь".into(), "пароль".into()),
+        ("indexer".into(), "hasłoZażółć".into()),
+        ("用户".into(), "p\u{1F511}w".into()),
         ("user".into(), "pass:with:colons".into()),
         ("u".into(), "p".into()),
         ("x".into(), "y".repeat(300)),
@@ -683,7 +685,11 @@ fn credential_alphabet(ctx: &WorkerCtx, rep: &mut WorkerReport, btc: &str) {
         let mut wrong_p = p.clone();
         let last = wrong_p.pop().unwrap_or('a');
         wrong_p.push(if last == 'z' { 'y' } else { 'z' });
-        for (name, hdr) in [("one-char-off", http::basic(&u, &wrong_p)), ("header-cut-short", format!("Authorization: Basic {}", &enc[..enc.len() - 1])), ("none", String::new())] {
+        // credentials with characters beyond U+00FF have no single-byte form: the same characters cut
+        // down to one byte each are other credentials
+        let cut: Vec<u8> = format!("{}:{}", u, p).chars().map(|c| c as u32 as u8).collect();
+        let cut_hdr = if format!("{}:{}", u, p).chars().any(|c| c as u32 > 0xff) { format!("Authorization: Basic {}", base64::prelude::BASE64_STANDARD.encode(&cut)) } else { http::basic(&u, &wrong_p) };
+        for (name, hdr) in [("one-char-off", http::basic(&u, &wrong_p)), ("header-cut-short", format!("Authorization: Basic {}", &enc[..enc.len() - 1])), ("code-points-cut-to-one-byte", cut_hdr), ("none", String::new())] {
             let hs: Vec<String> = if hdr.is_empty() { vec![] } else { vec![hdr] };
             rep.evaluations += 1;
             match http::post(&addr, &hs, &mine, t) {
